@@ -13,7 +13,6 @@ import TT.Lemmas.Sort
 import TT.Lemmas.Nav
 import TT.Props.C19
 import TT.Props.C02
-import TT.Props.C01
 namespace TT.Lemmas.ExportRT
 open TT TT.Tree TT.Spec
 open TT.Lemmas.Write TT.Lemmas.GramOut TT.Lemmas.WF TT.Lemmas.Nav
